@@ -226,3 +226,29 @@ Proof.
     rewrite (IH next (n / 2)%nat (next + 1) n1 l1 nx1 ltac:(lia) ltac:(lia) E1),
             (IH next (n - n / 2)%nat nx1 n2 l2 nx2 ltac:(lia) ltac:(lia) E2). lia.
 Qed.
+
+(* ---------- direct_connect_outputs: the loop stops only at the postcondition ---------- *)
+Fixpoint dco_passes (fuel : nat) (nl : netlist) : netlist :=
+  match fuel with O => nl | S f => dco_passes f (dco_with dco_skips nl) end.
+
+Lemma post_dco_no_change nl : dco_changes dco_skips nl = false -> post_direct_connect_outputs nl = true.
+Proof.
+  unfold dco_changes, post_direct_connect_outputs. intro H. apply forallb_forall. intros n Hn.
+  destruct (dco_candidate dco_skips nl n) eqn:E; [|reflexivity].
+  exfalso. assert (Ht : existsb (fun n => match dco_candidate dco_skips nl n with Some _ => true | None => false end)
+                          (nets nl) = true).
+  { apply existsb_exists. exists n. rewrite E. auto. }
+  rewrite H in Ht. discriminate.
+Qed.
+
+(* either the result has no removable w-net before an Output, or every one of
+   the [fuel] passes was a changing pass *)
+Theorem dco_iter_post : forall fuel nl,
+  post_direct_connect_outputs (dco_iter dco_skips fuel nl) = true
+  \/ dco_iter dco_skips fuel nl = dco_passes fuel nl.
+Proof.
+  induction fuel as [|f IH]; intro nl; cbn [dco_iter dco_passes]; [right; reflexivity|].
+  destruct (dco_changes dco_skips nl) eqn:E.
+  - apply IH.
+  - left. apply post_dco_no_change. exact E.
+Qed.
